@@ -859,12 +859,67 @@ func child() {
 	res.ChildDone()
 }
 
+// shortUnlimited: an unlimited part whose window closes while it is being drawn. Token counts
+// are not deterministic here, so only what does not depend on them is judged: no caller ever
+// sees time go backwards (the result of a call that reported the end included), no token of the
+// unlimited part lies after the part's end, and the parts after it start exactly at that end.
+func shortUnlimited(res *vkit.Result, trials int) {
+	for _, callers := range []int{1, 2, 4} {
+		c := map[string]any{"tree": "composite(unlimited(w), once(3), const(1000,2ms))", "callers": callers}
+		bad := ""
+		for trial := 0; trial < trials && bad == ""; trial++ {
+			w := time.Duration(20+trial%200) * time.Microsecond
+			s := schedule.NewComposite(schedule.NewUnlimited(w), schedule.NewOnce(3), schedule.NewConst(1000, 2*time.Millisecond))
+			t0 := time.Now()
+			s.Start(t0)
+			end := t0.Add(w)
+			var mu sync.Mutex
+			var wg sync.WaitGroup
+			for g := 0; g < callers; g++ {
+				wg.Add(1)
+				go func(g int) {
+					defer wg.Done()
+					var prev time.Time
+					for n := 0; n < 200000; n++ {
+						t, ok := s.Next()
+						if !prev.IsZero() && t.Before(prev) {
+							mu.Lock()
+							if bad == "" {
+								bad = fmt.Sprintf("caller %d got %v after %v (%v backwards), window %v, after %d draws", g, t.Sub(t0), prev.Sub(t0), prev.Sub(t), w, n)
+							}
+							mu.Unlock()
+							return
+						}
+						prev = t
+						if !ok {
+							if want := end.Add(2 * time.Millisecond); !t.Equal(want) {
+								mu.Lock()
+								if bad == "" {
+									bad = fmt.Sprintf("finish reported at +%v, the parts end at +%v", t.Sub(t0), want.Sub(t0))
+								}
+								mu.Unlock()
+							}
+							return
+						}
+					}
+				}(g)
+			}
+			wg.Wait()
+			res.Count("short_unlimited_trials", 1)
+		}
+		if bad != "" {
+			res.Violate("C02/short-unlimited/time-decreased", bad, c)
+		}
+		res.Eval(vkit.JSON(c), true)
+	}
+}
+
 func main() {
 	if vkit.IsChild() {
 		child()
 		return
 	}
-	res := vkit.NewResult("random schedule trees (depth ≤ 3, once/const/line/step/instance_step/unlimited/composite incl. empty and zero-token parts, unlimited parts finished (far past) or live (1 h window) in any position, ≤ 2000 tokens) drawn by 1–16 concurrent callers with seeded Next/Left scripts (stress mode, yield hook = Gosched/µs sleeps, GOMAXPROCS ∈ {1,2,4,16}); plus flat composites with 2–3 callers × ≤ 5 ops executed under a controller that enumerates interleavings at the hook's park points (bounded DFS + random walks); distinct = distinct (case, interleaving); non-trivial = ≥ 2 tokens and ≥ 2 callers (stress) / every controlled interleaving")
+	res := vkit.NewResult("random schedule trees (depth ≤ 3, once/const/line/step/instance_step/unlimited/composite incl. empty and zero-token parts, unlimited parts finished (far past) or live (1 h window) in any position, ≤ 2000 tokens) drawn by 1–16 concurrent callers with seeded Next/Left scripts (stress mode, yield hook = Gosched/µs sleeps, GOMAXPROCS ∈ {1,2,4,16}); plus flat composites with 2–3 callers × ≤ 5 ops executed under a controller that enumerates interleavings at the hook's park points (bounded DFS + random walks); plus composites whose unlimited part closes while 1–4 callers draw from it (monotonicity and finish time only); distinct = distinct (case, interleaving); non-trivial = ≥ 2 tokens and ≥ 2 callers (stress) / every controlled interleaving")
 	rng := vkit.Rand("c02")
 	onCrash := func(c vkit.Crash) {
 		var cs Case
@@ -927,6 +982,7 @@ func main() {
 	}()
 	wg.Wait()
 	vkit.CheckRaceLog(res, "C02")
+	shortUnlimited(res, vkit.N(400, 8000))
 	if res.Counter("hook_hits/next:after-runlock") == 0 || res.Counter("hook_hits/left:after-runlock") == 0 || res.Counter("controlled_interleavings") < 50 {
 		res.Inconclusive(true, "yield hook not reached or too few controlled interleavings (is the verif tag on?)")
 	}
